@@ -10,7 +10,7 @@ use crate::opt::{landscape_strat, run_script, same_bits, Landscape, LandscapePol
 use crate::probe::Expect;
 
 pub const TITLE: &str = "The optimiser terminates normally and does the amount of work requested";
-pub const RULE: &str = "part work: steps in {0,1,2,...,5000} (small values favoured), inner_steps in {0,1,...,2*steps+1} (multiples, non-multiples, larger than steps), kT >= 0 with every cooling option, max_step_size in {0, 1e-9..1e-6 of a range of 2e6 (absolute moves 1e-3..1, never clamped)}, convergence in {None,0,1e-9,1e-3,1e9}, synthetic states (3..6 parameters on a wide range, so no move is clamped) scored by a generated landscape (concave, rippled, plateaus: converging early, late or never). Oracle: no panic; the number of proposals P (score() calls that changed a parameter) satisfies steps - min(inner,steps) < P <= steps (P = 0 when steps or inner_steps is 0) with one evaluation before and at most one after; the run with a convergence threshold is a bit-exact prefix of the run without it (same seed), and a proper prefix ends at an inner-loop boundary m >= 6 whose last six loops each improved the current score by less than the threshold (improvements recomputed from the trace at kT=0). part cli: argument vectors from a grammar of valid and invalid values (group names incl. unknown, polygon sides 0..12 and -1, LJ+polygon, trimer options incl. degenerate, replications 0..3, steps and inner-steps incl. 0, unknown potential, missing output directory); oracle: exit 0 with both output files present and parseable, or exit != 0 with a message on stderr, never exit 101 / 'panicked at'. Non-trivial = inner does not divide steps, or steps*inner = 0, or an early exit occurred, or (cli) an invalid argument vector; distinct by hash of the case.";
+pub const RULE: &str = "part work: steps in {0,1,2,...,5000} (small values favoured), inner_steps in {0,1,...,2*steps+1} (multiples, non-multiples, larger than steps), kT >= 0 with every cooling option, max_step_size in {0, 1e-9..1e-6 of a range of 2e6 (absolute moves 1e-3..1, never clamped)}, convergence in {None,0,1e-9,1e-3,1e9}, synthetic states (3..6 parameters on a wide range, so no move is clamped) scored by a generated landscape (concave, rippled, plateaus: converging early, late or never). Oracle: no panic; the number of proposals P (score() calls that changed a parameter) satisfies steps - min(inner,steps) < P <= steps (P = 0 when steps or inner_steps is 0) with one evaluation before and at most one after; the run with a convergence threshold is a bit-exact prefix of the run without it (same seed), and a proper prefix ends at an inner-loop boundary m >= 6 whose last six loops each improved the current score by less than the threshold (improvements recomputed from the trace at kT=0). part cli: argument vectors from a grammar of valid and invalid values (group names incl. unknown, polygon sides 0..12 and -1, LJ+polygon, trimer options incl. degenerate, replications 0..3, steps and inner-steps incl. 0, unknown potential, missing output directory, a directory in the place of the .svg file); oracle: exit 0 with both output files present and parseable, or exit != 0 with a message on stderr, never exit 101 / 'panicked at'. Non-trivial = inner does not divide steps, or steps*inner = 0, or an early exit occurred, or (cli) an invalid argument vector; distinct by hash of the case.";
 
 pub fn assumptions() -> Vec<&'static str> {
     vec!["a CLI run that exceeds 120 s is reported as inconclusive (exit 2), not as a violation", "with max_step_size = 0 proposals cannot be told from the final validity evaluation; the count is then accepted under either reading"]
@@ -210,6 +210,9 @@ fn work_oracle(c: &WorkCase, rec: &Rec, _: &Ctx) -> Result<(), String> {
 pub struct CliCase {
     pub args: CliArgs,
     pub bad_outdir: bool,
+    /// a directory sits where the .svg file has to be written (the .json path stays writable)
+    #[serde(default)]
+    pub block_svg: bool,
 }
 
 pub fn cli_shape() -> BoxedStrategy<CliShape> {
@@ -237,12 +240,12 @@ fn cli_strat(_: &Ctx) -> BoxedStrategy<CliCase> {
         prop_oneof![Just(None), Just(Some(0.)), Just(Some(0.5))],
         prop_oneof![Just(None), Just(Some(0.001)), Just(Some(0.))],
         prop_oneof![Just(None), Just(Some(0.1))],
-        (prop_oneof![Just(None), Just(Some(0.)), Just(Some(0.05)), Just(Some(1.0))], prop_oneof![Just(None), Just(Some(1e-6)), Just(Some(1e9))], prop_oneof![9 => Just(false), 1 => Just(true)]),
+        (prop_oneof![Just(None), Just(Some(0.)), Just(Some(0.05)), Just(Some(1.0))], prop_oneof![Just(None), Just(Some(1e-6)), Just(Some(1e9))], prop_oneof![9 => Just(false), 1 => Just(true)], prop_oneof![9 => Just(false), 1 => Just(true)]),
     )
-        .prop_map(|(group, shape, potential, replications, steps, inner_steps, kt_start, kt_finish, kt_ratio, (max_step_size, convergence, bad_outdir))| {
+        .prop_map(|(group, shape, potential, replications, steps, inner_steps, kt_start, kt_finish, kt_ratio, (max_step_size, convergence, bad_outdir, block_svg))| {
             // keep the default 100 replications out of the grammar: always pass a count unless testing the parser
             let replications = replications.or(Some(2));
-            CliCase { args: CliArgs { group, shape, potential, replications, steps, inner_steps, kt_start, kt_finish, kt_ratio, max_step_size, convergence }, bad_outdir }
+            CliCase { args: CliArgs { group, shape, potential, replications, steps, inner_steps, kt_start, kt_finish, kt_ratio, max_step_size, convergence }, bad_outdir, block_svg }
         })
         .boxed()
 }
@@ -260,6 +263,9 @@ fn valid_args(a: &CliArgs) -> bool {
 fn cli_oracle(c: &CliCase, rec: &Rec, ctx: &Ctx) -> Result<(), String> {
     let dir = cli::scratch_dir(ctx);
     let outfile = if c.bad_outdir { dir.join("no-such-dir").join("out") } else { dir.join("out") };
+    if c.block_svg && !c.bad_outdir {
+        let _ = std::fs::create_dir_all(outfile.with_extension("svg"));
+    }
     let argv = c.args.to_argv(&outfile);
     let r = cli::run(ctx, &argv, &outfile, Some(2), 120);
     let _ = std::fs::remove_dir_all(&dir);
@@ -293,7 +299,7 @@ fn cli_oracle(c: &CliCase, rec: &Rec, ctx: &Ctx) -> Result<(), String> {
         }
         None => return Err(format!("`packing {}` was killed by a signal", shown)),
     }
-    let valid = valid_args(&c.args) && !c.bad_outdir;
+    let valid = valid_args(&c.args) && !c.bad_outdir && !c.block_svg;
     let zero = c.args.steps == Some(0) || c.args.inner_steps == Some(0) || c.args.replications == Some(0);
     let class = format!("cli/{}{}/exit{}", if valid { "valid" } else { "invalid" }, if zero { "/zero-work" } else { "" }, out.status.unwrap_or(-1));
     rec.class(&class);
